@@ -13,6 +13,7 @@ C18 ops
   roundtrip {dimsW:[[n,p]…], dimsR:[[n,p']…], order:[[c…]…], readers:[[c'…]…]}
             -> {blocks:[[what each reader gets, C order: global flat offset | null (never written)]], shapes:[[…]]}
   names     {folder, conv, times:[…]} -> {names:[…], latest: string|null, time: int|null}
+            latest = first name of maximal parsed time (latestByTime, fix F10), time = the time parsed from it
   loop      {program:{pre,cond,body,post} (TimeLoop.json), saveStep, tEnd, dt, loadable, fileTime, clock:[bool…], fuel}
             -> {t, ti, tN, nLoops, startPrint, crashed, events:[["ckpt",isPhi,t] | ["collect",t] | ["reduce"] | ["lines",lo,hi]]}
   constants {data:[[key, null | [dep…]]…]}  (file order; null = literal, list = string expression over these keys)
@@ -257,7 +258,7 @@ def handleC18 (op : String) (j : Json) : R Json := do
     let conv := codes (← fStr j "conv")
     let times ← fNatList j "times"
     let names := times.map (fileName folder conv)
-    let (lat, tm) : Json × Json := match restartChoice names, latest names with
+    let (lat, tm) : Json × Json := match restartChoice names, latestByTime names with
       | some (f, t), _ => (Json.str (uncodes f), jNat t)
       | none, some f => (Json.str (uncodes f), Json.null)
       | none, none => (Json.null, Json.null)
